@@ -20,6 +20,16 @@ Pref(s, t) == IF t = 0 THEN 0 ELSE s[t] + Pref(s, t - 1)
 W == [t \in 1..Len(sp) |-> <<<<Pref(sp, t) - sp[1], sp[t], 0>>, <<Pref(sp, t) - sp[1], sp[t], 0>>>>]
 ScaleG(k2) == [i \in 1..3 |-> [j \in 1..3 |-> k2 * G1[i][j]]]
 MsdLagZero == NonEmpty => \A a \in 1..2 : MsdNum(G1, W)[a][1] = 0
+(* uniform motion: an atom moving by the same step v in every frame has MSD(tau) = tau^2 |v|^2 at every lag, for every length: *)
+(* the closed form against which the FFT-based implementation is held at lengths no enumeration reaches (C06 at scale)         *)
+LinearMsd == Len(sp) = 3 => \A T \in 1..(MaxLen + 2) :
+                LET v == <<sp[1], sp[2], sp[3]>>
+                    Wl == [t \in 1..T |-> <<<<(t - 1) * v[1], (t - 1) * v[2], (t - 1) * v[3]>>>>]
+                IN \A tau \in 1..T : MsdNum(G1, Wl)[1][tau] = (T - (tau - 1)) * (tau - 1) * (tau - 1) * Sq(G1, v)
+(* the MSD row of an atom is a function of that atom's own path: adding, removing or repeating other atoms changes nothing *)
+MsdPerAtom == NonEmpty => LET W1 == [t \in 1..Len(sp) |-> <<W[t][1]>>]
+                              W3 == [t \in 1..Len(sp) |-> <<W[t][2], <<t, 0, -t>>, W[t][1]>>]
+                          IN MsdNum(G1, W)[1] = MsdNum(G1, W1)[1] /\ MsdNum(G1, W3)[3] = MsdNum(G1, W1)[1] /\ MsdNum(G1, W3)[1] = MsdNum(G1, W)[2]
 (* identical motion: Haven ratio (TracerNum/A) * MassSum^2 / ComNum = 1, for any positive integer masses *)
 HavenOne == NonEmpty => \A m \in {<<1, 1>>, <<2, 5>>, <<7, 3>>} : TracerNum(G1, W) * MassSum(m) * MassSum(m) = 2 * ComNum(G1, W, m)
 (* scaling the cell by K (G by K^2) scales every diffusivity numerator by K^2, the volume^2 by K^6 *)
